@@ -472,6 +472,11 @@ func (db *DB) getActiveFileWriteOff() (off int64, err error) {
 			//set ActiveFileActualSize
 			db.ActiveFile.ActualSize = off
 
+			// an exactly full segment: reading at the capacity is an error under MMap
+			if off >= db.opt.SegmentSize {
+				break
+			}
+
 		} else {
 			if err == io.EOF {
 				break
